@@ -75,7 +75,15 @@ func init() {
 	h["vChoice"] = func(fr *frame, args []value) value {
 		n := int(asInt64(args[1]))
 		name := cur.uniqueName(args[0].(string))
-		ch := cur.ChooseN(n)
+		var ch int
+		if fx, ok := cur.fixed[name]; ok {
+			if fx >= n {
+				cur.abort("assume", "fixed choice out of range")
+			}
+			ch = fx
+		} else {
+			ch = cur.ChooseN(n)
+		}
 		cur.inputs = append(cur.inputs, &inputVar{Name: name, Kind: "choice", Conc: int64(ch)})
 		return ch
 	}
@@ -393,12 +401,12 @@ func errorsIs(fr *frame, err, target iface, depth int) bool {
 		if comparable && types.Identical(err.t, target.t) && equals(err.t, err.v, target.v) {
 			return true
 		}
-		if m := fr.i.prog.LookupMethod(err.t, nil, "Is"); m != nil && m.Signature.Params().Len() == 1 && m.Signature.Results().Len() == 1 {
+		if m := lookupMethodOpt(fr.i, err.t, "Is"); m != nil && m.Signature.Params().Len() == 1 && m.Signature.Results().Len() == 1 {
 			if r, ok := call(fr.i, fr, 0, m, []value{err.v, target}).(bool); ok && r {
 				return true
 			}
 		}
-		m := fr.i.prog.LookupMethod(err.t, nil, "Unwrap")
+		m := lookupMethodOpt(fr.i, err.t, "Unwrap")
 		if m == nil || m.Signature.Params().Len() != 0 || m.Signature.Results().Len() != 1 {
 			return false
 		}
@@ -456,4 +464,71 @@ func init() {
 		zt[1] = sym{in.Terms[0], types.Int64}
 		return tuple{zt, iface{}}
 	}
+}
+
+func lookupMethodOpt(i *interpreter, t types.Type, name string) *ssa.Function {
+	sel := i.prog.MethodSets.MethodSet(t).Lookup(nil, name)
+	if sel == nil {
+		return nil
+	}
+	return i.prog.MethodValue(sel)
+}
+
+// extIndex is the exact first-match semantics of bytes.Index / strings.Index: position i is
+// tried only after positions < i were decided not to match; each decision is a branch on
+// one Bool term (a conjunction of byte equalities), so no hashing (Rabin-Karp) is encoded.
+func extIndex(fr *frame, args []value) value {
+	s, sep := byteSeq(args[0]), byteSeq(args[1])
+	n := len(sep)
+	if n == 0 {
+		return 0
+	}
+	for i := 0; i+n <= len(s); i++ {
+		m := bytesEqTermSeq(s[i:i+n], sep)
+		if m.IsConst() {
+			if m.Val != 0 {
+				return i
+			}
+			continue
+		}
+		if cur.Branch(m) {
+			return i
+		}
+	}
+	return -1
+}
+
+// bytesEqTermSeq is bytesEqTerm for operands where both sides may be symbolic.
+func bytesEqTermSeq(a, b []value) *Term { return bytesEqTerm(a, b) }
+
+func init() {
+	externals["bytes.Index"] = extIndex
+	externals["strings.Index"] = extIndex
+	externals["internal/bytealg.Index"] = extIndex
+	externals["internal/bytealg.IndexString"] = extIndex
+	externals["internal/stringslite.Index"] = extIndex
+}
+
+// extContains: bytes.Contains / strings.Contains as one Bool term (a disjunction over the
+// positions of conjunctions of byte equalities): exact, and no path is forked.
+func extContains(fr *frame, args []value) value {
+	s, sep := byteSeq(args[0]), byteSeq(args[1])
+	n := len(sep)
+	if n == 0 {
+		return true
+	}
+	c := cur.ctx
+	r := c.False
+	for i := 0; i+n <= len(s); i++ {
+		r = c.Or(r, bytesEqTerm(s[i:i+n], sep))
+		if r.IsConst() && r.Val == 1 {
+			return true
+		}
+	}
+	return mkSym(r, types.Bool)
+}
+
+func init() {
+	externals["bytes.Contains"] = extContains
+	externals["strings.Contains"] = extContains
 }
